@@ -44,6 +44,8 @@ def import_phylib():
     import phylib.utils.event  # noqa
     if alt:
         assert os.path.realpath(phylib.__file__).startswith(os.path.realpath(alt)), phylib.__file__
+    import logging
+    logging.disable(logging.CRITICAL)
     _IMPORTED[0] = True
 
 
